@@ -835,6 +835,9 @@ func TestVerifC37Random(t *testing.T) {
 	maxLog := c.N(12, 14)
 	c.Rule(fmt.Sprintf("PRNG arrays with sizes biased to 2^k-1, 2^k, 2^k+1 up to 2^%d (a quarter of them with repeated elements), PRNG hash function and tree kind, several PRNG position sets per tree (sparse, dense, clustered, the last positions); same completeness and single-field-mutation oracle as the exhaustive part with PRNG-chosen mutation parameters; distinct = (kind, hash, size, |positions|, sibling-pair shape)", maxLog))
 	ntrees := c.N(160, 2400)
+	if c.Lane == "race" { // the race lane watches the concurrent tree builder; it needs trees, not volume
+		ntrees = c.N(160, 400)
+	}
 	var wg sync.WaitGroup
 	ch := make(chan int)
 	for w := 0; w < 8; w++ {
